@@ -131,13 +131,14 @@ theorem resendBody_good (env : Env) (sr : Msg → Bool) (rows : List Msg) (b : I
     have hmid : Good om c
         { c2 with sess := { c2.sess with nextOut := c.sess.nextOut },
                   journal := c2.journal.setSeq c.sess.nextOut c2.sess.nextIn } e2 := by
-      refine ⟨fun _ => ?_, ?_, hrel.nw.below _, Or.inr (Or.inl ?_), ?_, ?_, ?_⟩
+      refine ⟨fun _ => ?_, ?_, hrel.nw.below _, Or.inr (Or.inl ?_), ⟨?_, ?_, ?_⟩, ?_⟩
       · show c.sess.nextOut - 1 + 1 = c.sess.nextOut; omega
       · exact Int.le_refl _
       · show c2.sess.nextIn - 1 + 1 = c2.sess.nextIn; omega
       · show c2.sess.sender = c.sess.sender; rw [hrel.sess]
       · show c2.sess.target = c.sess.target; rw [hrel.sess]
       · show c2.hb = c.hb; rw [hrel.hb]
+      · show 0 < c.sess.nextIn → 0 < c2.sess.nextIn; rw [hrel.sess]; exact id
     have := Compositional.trans hmid htail
     simpa using this
 
